@@ -143,6 +143,16 @@ func c18Scenarios() []c18Scenario {
 			filter := func() { w.C.Query(func(txn *column.Txn) error { txn.With("old").Count(); return nil }) }
 			return []func(){putN(w.C, R1, 7), func() { w.C.CreateIndex("big", "n", func(r column.Reader) bool { return r.Int() > 5 }) }, filter}, w.Close
 		}},
+		{"createColumn||writer||range", func() ([]func(), func()) {
+			w := c18World(false)
+			mk := func() { w.C.CreateColumn("late", column.ForInt()) }
+			return []func(){mk, putN(w.C, R0, 7), rangeN(w.C)}, w.Close
+		}},
+		{"dropColumn||reader-of-another-column||writer", func() ([]func(), func()) {
+			w := c18World(false)
+			w.C.CreateColumn("extra", column.ForInt())
+			return []func(){func() { w.C.DropColumn("extra") }, readN(w.C, R1), putN(w.C, R0, 7)}, w.Close
+		}},
 		{"writer||dropIndex", func() ([]func(), func()) {
 			w := c18World(false)
 			w.C.CreateIndex("big", "n", func(r column.Reader) bool { return r.Int() > 5 })
@@ -262,8 +272,8 @@ func init() {
 	eng.Register(&eng.Check{
 		Prop:  "C18",
 		Level: "model_checking", NodeStates: true,
-		Rule: "SCHED over 19 scenarios mixing transactions, point reads, filtered iteration, inserts, deletes, growth into a new block, snapshots, restore into another collection, index / " +
-			"sorted index / trigger creation and removal, keyed operations. race/* units run in the -race build with the scheduler's hand-offs hidden from the detector " +
+		Rule: "SCHED over 21 scenarios mixing transactions, point reads, filtered iteration, inserts, deletes, growth into a new block, snapshots, restore into another collection, index / " +
+			"sorted index / trigger creation and removal, column creation and removal, keyed operations. race/* units run in the -race build with the scheduler's hand-offs hidden from the detector " +
 			"(runtime.RaceDisable), so that every explored schedule is checked against the program's own happens-before order for ALL conflicting accesses it performs; a report is " +
 			"identified by the pair of innermost kelindar/column functions. deadlock/* units run the plain build at a higher bound; a schedule after which some thread can never run is a " +
 			"deadlock. states = decision nodes; distinct = distinct (scenario, outcome)",
@@ -274,9 +284,9 @@ func init() {
 		Budget: budget(170*time.Second, 28*time.Minute),
 		Bounds: func(tier string) map[string]any {
 			if tier == "quick" {
-				return map[string]any{"preemption_bound_race": 2, "preemption_bound_deadlock": 2, "scenarios": 19, "note": "the 16K-row scenario runs one bound lower"}
+				return map[string]any{"preemption_bound_race": 2, "preemption_bound_deadlock": 2, "scenarios": 21, "note": "the 16K-row scenario runs one bound lower"}
 			}
-			return map[string]any{"preemption_bound_race": 3, "preemption_bound_deadlock": 4, "scenarios": 19}
+			return map[string]any{"preemption_bound_race": 3, "preemption_bound_deadlock": 4, "scenarios": 21}
 		},
 		Units: c18Units,
 	})
